@@ -113,6 +113,8 @@ def _drive(args):
     seed, cases = args
     out = []
     for (tid, n, k, kind, enc, blocked) in cases:
+        if tid % 8 == 5:
+            drv.hazard(drv.rng(seed, 'hazard', tid))
         bc = dec_config() if kind == 'bad-decimal' else PKG['bit_config']
         data = build_file(n, k, kind, enc, blocked, bc, seed)
         realfile = None
